@@ -35,7 +35,12 @@ def ser_catalog(cat):
     for pid in cat:
         p = cat[pid]
         parts.append(repr((int(pid), p.meta.to_dict())).encode() + p.load_data().tobytes())
-    return h(b"|".join(parts)) + f":{list(cat.keys())}"
+    # every Mapping view and the per-patch getters: their order is part of what the caller sees
+    views = dict(iter=[int(k) for k in cat], keys=[int(k) for k in cat.keys()], items=[int(k) for k, _ in cat.items()],
+                 values=[int(v.cache_path.name.split("_")[-1]) for v in cat.values()],
+                 num_records=[int(x) for x in cat.get_num_records()], sum_weights=[float(x) for x in cat.get_sum_weights()],
+                 centers=np.asarray(cat.get_centers().data).tolist(), radii=np.asarray(cat.get_radii().data).tolist())
+    return h(b"|".join(parts)) + f":{views}"
 
 
 def ser_trees(cat):
